@@ -6,6 +6,7 @@ PROVED.  (The accuracy clauses of C18 already have `*_binary32` versions in `Lem
 import Rrtk.Thm.C18
 import Rrtk.Thm.Lemmas.SoftScalar
 import Rrtk.Thm.Lemmas.C18More
+import Rrtk.Thm.Lemmas.TimeI64
 set_option linter.unusedSectionVars false
 set_option linter.unusedSimpArgs false
 namespace Rrtk.Thm.C18
